@@ -16,15 +16,15 @@ LEVEL = 'model_checking'
 TECHNIQUE = ('bounded exhaustive enumeration of (program, pattern/template, nested, count, on, loop, back) on the real sub()/subn(), each '
              'result compared with a reference pure-AST transformer (structure, counts), C01 and line preservation outside the '
              'substituted statements')
-LEVEL_TEXT = ('22 programs x 22 (pattern, template) pairs (single-node, whole-match, swap, unwrap, slice, multi-node Dict, statement with '
-              'slice captures, identity) x all combinations of nested/count/on/loop/back that the reference defines are executed on the '
+LEVEL_TEXT = ('23 programs x 26 (pattern, template) pairs (single-node, whole-match, swap, unwrap, slice, multi-node Dict, string slots, template material that matches the pattern, statement with '
+              'slice captures, identity) x all combinations of nested/count/on/loop/back/callback that the reference defines are executed on the '
               'real code and compared with the reference transformer')
 LEVEL_NOTE = ('trusted: CPython ast (unparse->parse normal form) and the reference transformer written from the documented semantics '
               '(template originals and the whole-match top node are never re-substituted; nested recursion continues into the new node)')
 RULE = ('enum: case = (program, rule, settings); non-trivial = distinct cases with >= 1 substitution; states = distinct result sources; '
         'traces = cases compared with the reference')
 ASSUMPTIONS = ['count limits are compared only for nested=False (walk order of the new tree is otherwise template dependent)']
-BOUNDS = {'quick': '18 programs x 16 rules x nested {F,T} x on {enter, leave} + count {1,2} x back {F,T} (nested=False) + loop 2 (unwrap rule)',
+BOUNDS = {'quick': '23 programs x 26 rules x nested {F,T} x on {enter, leave} x back {F,T} + count {1,2} x back x on (nested=False) + loop 2, 3 (unwrap rule) + 5 callback schedules (which calls answer skip) on 6 rules',
           'thorough': 'same (the space is small and completed in quick)'}
 
 PROGS = [
